@@ -17,6 +17,8 @@ ties       : (A) codec   — the real _MIR_get_thunk/_MIR_redirect_thunk/_MIR_ge
              (D) programs — multi-module programs (checks/c03_gen.py: recursion, mutual recursion across
                  modules, indirect calls through `ref` data, function addresses passed to C callbacks that
                  re-enter MIR, 17-argument functions, permuted first-call orders) under interp, the
+                 by-value block parameters of every class (blk, blk1..blk4, rblk) at every position 0..7 ints x 0..9 doubles
+                 before the block, passed from MIR and from a C caller that does the psABI placement itself;
                  interpreter's C interface, eager / lazy / lazy-bb generation at every level and under mixed links
                  (set_interface callback choosing a different interface per module), with an
                  allocator that clobbers caller-saved registers; results, buffers, call logs must coincide
@@ -428,7 +430,14 @@ def stage_regs():
         t = l.split()
         lost = [x for x in t[5:] if x.startswith("LOST")]
         if t[1] == "bb" and any(x.startswith("clobbered:xmm") for x in t[5:]):
+            # generated code keeps values in xmm8-15 across bb borders: the bb wrapper must preserve them
             st["bb_wrapper_leaves_xmm8_15_to_callee"] += 1
+            if st["bb_wrapper_leaves_xmm8_15_to_callee"] == 1:
+                ck.violation({"stage": "regs", "plan": f"{t[1]} {t[2]}\n", "impl": l, "bb_xmm_must_survive": True,
+                              "expected": "the bb wrapper preserves xmm8-15 around bb_version_generator",
+                              "how_to_rerun": "./check C03 --replay <this file>"},
+                             what="bb wrapper does not preserve xmm8-15 across its hook: " + " ".join(x for x in t[5:] if x.startswith("clobbered:xmm")),
+                             signature="C03:bb-wrapper-xmm8-15")
         if (t[3] != "hook=1" or t[4] != "probe=1" or lost or "crash" in l) and nrep < 2:
             nrep += 1
             ck.violation({"stage": "regs", "plan": f"{t[1]} {t[2]}\n", "impl": l,
@@ -441,7 +450,7 @@ def stage_regs():
 
 # ====================================================================== (D) programs
 def bad_lines(lines):
-    return [l for l in lines if (l[:2] in ("P ", "H ", "W ") and " | =" not in l and not l.startswith("H engines"))
+    return [l for l in lines if (l[:2] in ("P ", "H ", "W ", "B ") and " | =" not in l and not l.startswith("H engines"))
             or l.startswith("E ") or (l.startswith("A ") and not l.endswith(" same"))]
 
 
@@ -477,14 +486,14 @@ def check_prog_batch(engines, batch, tag, env=None):
         rc, lines, err = run_iface(engines, text, plan, f"{tag}_{o}", env, timeout=30)
         if _t.time() - t0 > 25:
             ck.log(f"slow harness run {tag}_{o} {engines}: {_t.time() - t0:.0f}s rc={rc} programs {[P.name for P, _ in batch]}")
-        res = [l for l in lines if l[:2] in ("P ", "H ", "W ", "A ") and not l.startswith("H engines")]
+        res = [l for l in lines if l[:2] in ("P ", "H ", "W ", "B ", "A ") and not l.startswith("H engines")]
         nexp = sum(nplan(pl[o % len(pl)]) for _, pl in batch)
         nexp += sum(pl[o % len(pl)].count("addrs\n") for _, pl in batch) * (len(engines) - 1)
         if rc != 0 or bad_lines(lines) or len(res) != nexp:
             # isolate per program
             for P, pl in batch:
                 rc1, l1, e1 = run_iface(engines, P.text(), pl[o % len(pl)], f"{tag}_{o}_iso", env, timeout=10)
-                r1 = [l for l in l1 if l[:2] in ("P ", "H ", "W ", "A ") and not l.startswith("H engines")]
+                r1 = [l for l in l1 if l[:2] in ("P ", "H ", "W ", "B ", "A ") and not l.startswith("H engines")]
                 n1 = nplan(pl[o % len(pl)]) + pl[o % len(pl)].count("addrs\n") * (len(engines) - 1)
                 if rc1 != 0 or bad_lines(l1) or len(r1) != n1:
                     fails.append({"prog": P, "plan": pl[o % len(pl)], "engines": engines, "lines": bad_lines(l1)[:60], "rc": rc1,
@@ -573,7 +582,7 @@ def shrink_prog_failure(f):
     last = pl[-1].split()
     if tkey is not None:
         last = tkey.split()
-        last[0] = {"P": "prog", "H": "callh", "W": "wide"}.get(last[0], last[0])
+        last[0] = {"P": "prog", "H": "callh", "W": "wide", "B": "callb"}.get(last[0], last[0])
     if last[0] == "prog" and not any(l.startswith("ORDER") for l in f["lines"]) and _t.time() < deadline:
         try:
             def run_engine_env(exe, engs, t, p, workdir, tag, timeout=25, quiet=True):
@@ -601,8 +610,11 @@ def stage_programs():
     per = 6
     progs = []
     stats = {}
+    G = c03_gen.BLOCK_GRID    # every (ints before, doubles before, block class, size) position, walked by a bijection
+    g0 = rng.below(len(G))
     for k in range(nprog):
-        P = c03_gen.gen_c03_program(rng, f"c{k}", opts=dict(jmpi=(k % 2 == 1)), many_doubles=(k % 3 == 0))
+        pos = [G[(g0 + k * 4 + j) * 263 % len(G)] for j in range(4)]
+        P = c03_gen.gen_c03_program(rng, f"c{k}", opts=dict(jmpi=(k % 2 == 1)), many_doubles=(k % 3 == 0), block_positions=pos)
         calls = c03_gen.calls_for(P, mirgen.ARGSETS if (not quick or k % 2 == 0) else mirgen.ARGSETS[:3], rng)
         plans = [c03_gen.plan_from(calls), c03_gen.plan_from(c03_gen.permute(rng, calls))]
         if not quick:
@@ -642,8 +654,8 @@ def stage_programs():
             jobs.append((L, batch, f"b{bi}l{L[1]}", None))
         for L in ([MIXES[bi % 3]] if quick else MIXES):   # one link, a per-module choice of interface
             jobs.append((L, batch, f"b{bi}m{L[1]}", None))
-        if bi % 4 == 0:   # interfaces that must not depend on xmm8-15 either
-            jobs.append((["interp", "interpc", "gen2", "lazy2"], batch, f"b{bi}t", {"C03_TRASH": "all"}))
+        if bi % 4 == 0:   # the allocator clobbers only xmm8-15 / everything but xmm8-15
+            jobs.append((["interp", "interpc", "gen2", "lazy2", "bb2"], batch, f"b{bi}t", {"C03_TRASH": "hi" if bi % 8 == 0 else "lo"}))
     fails, nev = [], 0
     with ThreadPoolExecutor(max_workers=14) as ex:
         futs = [ex.submit(check_prog_batch, *j) for j in jobs]
@@ -688,7 +700,9 @@ def stage_programs():
     d = ck.cov.setdefault("distribution", {})
     d["programs"] = {"programs": nprog, "harness_runs": len(jobs), "generated_constructs": stats, "failures_c01_class": classes["c01"], "programs_dropped_generator_fails_while_linking": len(dropped),
                      "failures_c03": classes["c03"], "failures_not_classified_after_enough_reports": classes.get("unclassified", 0), "c01_class_samples": c01_samples,
-                     "engine_sets": [ENG5] + LEVELS + MIXES + [["interp", "interpc", "gen2", "lazy2", "(allocator clobbers xmm8-15 too)"]]}
+                     "engine_sets": [ENG5] + LEVELS + MIXES + [["interp", "interpc", "gen2", "lazy2", "bb2", "(allocator clobbers only xmm8-15 / all but xmm8-15)"]],
+                     "block_param_grid": {"positions": len(G), "functions_generated": 4 * nprog,
+                                          "grid_covered_times": round(4 * nprog / len(G), 2)}}
     ck.sample({"program_plan_head": progs[0][1][1].split("\n")[:8]})
     return nprog, nev
 
@@ -779,9 +793,10 @@ def replay_case(rep):
     if st == "regs":
         rc, out, err = run_capped([THUNK, "regs"], rep["plan"], timeout=30)
         res = [l for l in out.split("\n") if l.startswith("regs ")]
-        return rc != 0 or not res or any("LOST" in l or "crash" in l or "hook=1 probe=1" not in l for l in res), res[:3]
+        return rc != 0 or not res or any("LOST" in l or "crash" in l or "hook=1 probe=1" not in l
+                                         or (rep.get("bb_xmm_must_survive") and "clobbered:xmm" in l) for l in res), res[:3]
     rc, lines, err = run_iface(rep["engines"], rep["mir"], rep["plan"], "replay", rep.get("env"))
-    return rc != 0 or bool(bad_lines(lines)) or not any(l[:2] in ("P ", "H ", "W ") for l in lines[1:]), (bad_lines(lines) + [err[-200:]])[:4]
+    return rc != 0 or bool(bad_lines(lines)) or not any(l[:2] in ("P ", "H ", "W ", "B ") for l in lines[1:]), (bad_lines(lines) + [err[-200:]])[:4]
 
 
 def stage_corpus():
@@ -862,8 +877,9 @@ def main():
         "_MIR_publish_code/_MIR_change_code write the bytes they are given (C17); allocator answers are inputs of the model's events",
         "reference for program behaviour is MIR_interp (engine `interp`); failures that reproduce with eager generation alone are attributed to C01",
         "half of the programs use laddr/jmpi in their entry functions, all use a jmpi through lref data; property insns are excluded by the property",
-        "engines are built as shipped (-DNDEBUG); the clobbering allocator leaves xmm8-15 alone except in the runs marked C03_TRASH=all "
-        "(see known finding C03:bb-wrapper-xmm8-15)",
+        "engines are built as shipped (-DNDEBUG); the allocator of every context clobbers all caller-saved registers incl. xmm8-15 "
+        "(finding C03:bb-wrapper-xmm8-15 is fixed; corpus/C03/kf-bb-xmm8 is its must-pass regression)",
+        "the C-level caller of block-parameter functions (`callb`) places arguments per the psABI itself (harness, c03_call_abi)",
     ]
     shutil.rmtree(WORK, ignore_errors=True)
     ck.finish()
